@@ -40,18 +40,27 @@ namespace Pcore.Ser
 
 inductive Kind where
   | rx | sv | svr | ts | tm | uri | ty
+  | td      -- a named type the loader knows (alias or object type): `valueToDataHash` emits "Type" at level 2
   deriving DecidableEq, Repr, Inhabited
 
 /-- `value.PType().Name()` as `pcoreTypeToData` emits it (all are known types, so a plain string) -/
 def Kind.typeName : Kind → String
   | .rx => "Regexp" | .sv => "SemVer" | .svr => "SemVerRange" | .ts => "Timespan"
-  | .tm => "Timestamp" | .uri => "URI" | .ty => "Type"
+  | .tm => "Timestamp" | .uri => "URI" | .ty => "Type" | .td => "Type"
+
+/-- the level at which the type name is emitted -/
+def Kind.typeLevel : Kind → Nat
+  | .td => 2 | _ => 1
+
+/-- the kind a decoded leaf has: a named type comes back as a type -/
+def Kind.canon : Kind → Kind
+  | .td => .ty | k => k
 
 /-- Timespan is a Go integer and types are interned: the serializer's map identifies them by content -/
 def Kind.byContent : Kind → Bool
-  | .ts => true | .ty => true | _ => false
+  | .ts => true | .ty => true | .td => true | _ => false
 
-def Kind.all : List Kind := [.rx, .sv, .svr, .ts, .tm, .uri, .ty]
+def Kind.all : List Kind := [.rx, .sv, .svr, .ts, .tm, .uri, .ty, .td]
 
 /-- values with object identity -/
 inductive V where
@@ -139,10 +148,11 @@ def strData (c : Cfg) (level : Nat) (s : String) (st : St) : Ev × St :=
     | none => record c (.str s) st.ref (addData (.str s) st)
   else addData (.str s) st
 
-/-- the first three children of a `{__ptype: T, __pvalue: …}` hash: toData(2,typeKey); toData(1,T); toData(2,valueKey) -/
-def head3 (c : Cfg) (tname : String) (st : St) : List Ev × St :=
+/-- the first three children of a `{__ptype: T, __pvalue: …}` hash: toData(2,typeKey); toData(tl,T); toData(2,valueKey)
+    (`tl` = 1 except for named types) -/
+def head3 (c : Cfg) (tl : Nat) (tname : String) (st : St) : List Ev × St :=
   let r1 := strData c 2 "__ptype" st
-  let r2 := strData c 1 tname r1.2
+  let r2 := strData c tl tname r1.2
   let r3 := strData c 2 "__pvalue" r2.2
   ([r1.1, r2.1, r3.1], r3.2)
 
@@ -257,7 +267,7 @@ def toData (c : Cfg) (level : Nat) : V → St → Ev × St
         record c (.ptr id) st.ref (.hsh r.1, r.2)
       else if c.rich then
         -- toKeyExtendedHash: {__ptype: Hash, __pvalue: [k, v, k, v, …]}
-        let h := head3 c "Hash" (bump st)
+        let h := head3 c 1 "Hash" (bump st)
         let r := flatData c es (bump h.2)
         record c (.ptr id) st.ref (.hsh (h.1 ++ [.arr r.1]), r.2)
       else
@@ -275,7 +285,7 @@ def toData (c : Cfg) (level : Nat) : V → St → Ev × St
     | some r => (.ref r, st)
     | none =>
       if c.rich then
-        let h := head3 c "Sensitive" (bump st)
+        let h := head3 c 1 "Sensitive" (bump st)
         let r := toData c 1 v h.2
         record c (.ptr id) st.ref (.hsh (h.1 ++ [r.1]), r.2)
       else record c (.ptr id) st.ref (strData c level sensitiveText st)
@@ -285,7 +295,7 @@ def toData (c : Cfg) (level : Nat) : V → St → Ev × St
     | none =>
       if c.bin then record c (.ptr id) st.ref (addData (.bin bs) st)
       else if c.rich then
-        let h := head3 c "Binary" (bump st)
+        let h := head3 c 1 "Binary" (bump st)
         let r := strData c 1 (b64 bs) h.2
         record c (.ptr id) st.ref (.hsh (h.1 ++ [r.1]), r.2)
       else record c (.ptr id) st.ref (strData c level (b64 bs) st)
@@ -295,7 +305,7 @@ def toData (c : Cfg) (level : Nat) : V → St → Ev × St
       match seen c (leafKey id k enc) st with
       | some r => (.ref r, st)
       | none =>
-        let h := head3 c k.typeName (bump st)
+        let h := head3 c k.typeLevel k.typeName (bump st)
         let r := strData c 1 enc h.2
         record c (leafKey id k enc) st.ref (.hsh (h.1 ++ [r.1]), r.2)
     else strData c 1 disp st        -- unknownToStringWithWarning(1, value), outside `process`
@@ -594,7 +604,7 @@ inductive D where
 mutual
 def V.abs : V → D
   | .undef => .undef | .dflt => .dflt | .bool b => .bool b | .int i => .int i | .flt f => .flt f | .str s => .str s
-  | .bin _ bs => .bin bs | .leaf _ k enc _ => .leaf k enc | .sens _ v => .sens v.abs
+  | .bin _ bs => .bin bs | .leaf _ k enc _ => .leaf k.canon enc | .sens _ v => .sens v.abs
   | .arr _ vs => .arr (absList vs) | .hash _ es => .hash (absPairs es)
 def absList : List V → List D
   | [] => [] | v :: vs => v.abs :: absList vs
